@@ -11,7 +11,7 @@ for P in $PROPS; do
       [ -f "$PATCH" ] || continue
       S=$(mktemp -d /tmp/selftest.XXXXXX); rsync -a --exclude .git ${VERIF_REPO:-/repo}/ $S/
       if ! (cd $S && patch -s -p1 < $HERE/$PATCH); then echo "SELFTEST-ERROR $P $PATCH does not apply"; FAILS=$((FAILS+1)); rm -rf $S; continue; fi
-      R=$(mktemp -d /tmp/selftest-replays.XXXXXX); OUT=$(./bin/govc -repo $S -prop $P -tier quick -known known_findings.json -replays $R -noreplay 2>&1); RC=$?
+      R=$(mktemp -d /tmp/selftest-replays.XXXXXX); OUT=$(./bin/govc -repo $S -prop $P -tier quick -timeout ${SELFTEST_TIMEOUT:-30} -known known_findings.json -replays $R -noreplay 2>&1); RC=$?
       rm -rf $S $R
       if [ $KIND = mutants ]; then
         if [ $RC -eq 1 ] && echo "$OUT" | grep -q "^VIOLATION property=$P"; then echo "ok   caught  $P $(basename $PATCH .patch): $(echo "$OUT" | grep -c '^VIOLATION') obligation(s), first: $(echo "$OUT" | grep -m1 '^VIOLATION' | sed 's/.*obligation=\([^ ]*\).*/\1/')"
